@@ -621,6 +621,21 @@ def check(ctx):
             if isinstance(x, ast.Assign) and any(isinstance(t, ast.Attribute) and t.attr == pslot for t in x.targets) \
                     and model.enclosing_function(x) is not init:
                 ctx.ob("verbatim.provider-keeps-key", model.enclosing_function(x), x, False, "the provider's key is re-assigned after construction", node=x)
+        # nothing computed from the key outlives the provider object: a store to the *class* (AesProvider._algorithm = AES(key),
+        # type(self).x = ..., cls.x = ...) from a method makes the first key used in a process the key of every later provider
+        for f in c.methods.values():
+            for x in ast.walk(f.node):
+                if isinstance(x, (ast.Assign, ast.AugAssign, ast.AnnAssign)):
+                    for t in (x.targets if isinstance(x, ast.Assign) else [x.target]):
+                        if isinstance(t, ast.Attribute):
+                            recv = t.value
+                            on_class = (isinstance(recv, ast.Name) and recv.id in model.classes and c.is_subclass_of(model.classes[recv.id])) or \
+                                (isinstance(recv, ast.Call) and isinstance(recv.func, ast.Name) and recv.func.id == "type") or \
+                                (isinstance(recv, ast.Attribute) and recv.attr == "__class__")
+                            if on_class:
+                                ctx.ob("verbatim.provider-no-class-state", f, x, False,
+                                       "%s stores %s on the class: state built from one provider's key is shared by all providers of the process "
+                                       "(a second key file's secrets are written with the first one's key)" % (f.qualname, ast.unparse(t)), node=x)
 
     # ---------------------------------------------------------------- C07.6 no other holder
     # the key slot and the counter are per-object state: a class-level binding of either name (a shared default, a descriptor
